@@ -57,7 +57,9 @@ Observe(m, e, maxFail, stopped) ==
                     ELSE IF e.su # m.suite \/ e.ph # m.phase THEN Fail(m, "ScenarioFinished outside its suite")
                     ELSE [m EXCEPT !.open = @ \ {e.sc},
                                    !.nbad = IF IsBad(e.st) THEN @ + 1 ELSE @,
-                                   !.worst = IF Rank(e.st) > @ THEN Rank(e.st) ELSE @,
+                                   \* only failed / errored scenarios constrain the phase status: an interrupted scenario
+                                   \* belongs to an interrupted run, where a phase may still end as skipped ("nothing to test")
+                                   !.worst = IF IsBad(e.st) /\ Rank(e.st) > @ THEN Rank(e.st) ELSE @,
                                    !.intr = @ \/ e.st = "interrupted"]
     [] k = "NFE" -> IF ~m.phaseOpen THEN Fail(m, "NonFatalError outside a phase")
                     ELSE [m EXCEPT !.worst = IF 3 > @ THEN 3 ELSE @]
